@@ -126,7 +126,7 @@ def tree17 (fls tree : String) : String :=
     | .ok _, .error e => s!"canon={canon} keys={ko} serpretty={showSer (.error e)}"
     | .ok t1, .ok p1 =>
       if hasFloat v then
-        s!"canon={canon} keys={ko} plain=n/a pretty=n/a tplain=n/a pure=1 disp=1 rt=n/a rtp=n/a trt=n/a fix=n/a fixp=n/a same=n/a ord=1 ordp=1 tord=1"
+        s!"canon={canon} keys={ko} plain=n/a pretty=n/a tplain=n/a pure=1 disp=1 rt=n/a rtp=n/a trt=n/a fix=n/a fixp=n/a same=n/a esame=n/a ord=1 ordp=1 tord=1"
       else
         let (rt, rtp, fix, fixp, same) := textFields v (decodeValue fl) t1 p1
         let (tplain, trt) := match v with
@@ -138,7 +138,7 @@ def tree17 (fls tree : String) : String :=
              | .error e => (showSer (.error e), "2"))
           | _ => ("none", "2")
         let rootTbl := if v.isTable then "1" else "2"
-        s!"canon={canon} keys={ko} plain={hexOut t1} pretty={hexOut p1} tplain={tplain} pure=1 disp={rootTbl} rt={rt} rtp={rtp} trt={trt} fix={fix} fixp={fixp} same={same} ord=1 ordp=1 tord={rootTbl}"
+        s!"canon={canon} keys={ko} plain={hexOut t1} pretty={hexOut p1} tplain={tplain} pure=1 disp={rootTbl} rt={rt} rtp={rtp} trt={trt} fix={fix} fixp={fixp} same={same} esame=n/a ord=1 ordp=1 tord={rootTbl}"
 
 def doc17 (fls hx : String) : String :=
   match flavourOf fls, bytesOfHex? hx with
